@@ -410,3 +410,15 @@ Proof.
     destruct (xi_tbl _ _ _ HI _ _ Hin) as [_ [Hi _]]. congruence.
   - cbn [xstep]. rewrite H1. reflexivity.
 Qed.
+
+(* the answered id has left the table when the delivery happens, and a second frame carrying it is dropped *)
+Lemma xconn_answered_id_gone : forall g x id x' s, xstep g x (XResponse id) = (x', ODeliver s) ->
+  lookup id (tbl x') = None /\ xstep g x' (XResponse id) = (x', ODrop).
+Proof.
+  intros g x id x' s H. cbn [xstep] in H. destruct (lookup id (tbl x)) as [s0|] eqn:E; [|discriminate H].
+  injection H as Hx _. subst x'.
+  assert (L : lookup id (tbl (set_flags (x <| tbl := remove_key id (tbl x) |>) s0
+            (fun e => mkXs (x_id e) false (x_connreset e) (S (x_recv e)) (x_resets e) false))) = None)
+    by (cbn; apply lookup_remove_key_same).
+  split; [exact L|]. cbn [xstep]. rewrite L. reflexivity.
+Qed.
